@@ -1,11 +1,15 @@
 use crate::engine::{DynProp, Erased};
 
 pub mod c08;
+pub mod c09;
+pub mod c10;
 pub mod lzcommon;
 
 pub fn registry() -> Vec<Box<dyn DynProp>> {
     vec![
         Box::new(Erased::<c08::C08>::new()),
+        Box::new(Erased::<c09::C09>::new()),
+        Box::new(Erased::<c10::C10>::new()),
     ]
 }
 
